@@ -80,6 +80,10 @@ func (f *FuncValue) Apply(args ...interface{}) Slice {
 }
 
 func (f *FuncValue) applyValue(args []reflect.Value) Slice {
+	if len(args) != len(f.args) {
+		typecheck.Panicf(2, "wrong number of arguments: function takes %d arguments, got %d",
+			len(f.args), len(args))
+	}
 	argTypes := make([]reflect.Type, len(args))
 	for i, arg := range args {
 		if !arg.IsValid() {
